@@ -373,6 +373,28 @@ def r5(ctx, r):
     f = kvf(ctx, "evictionCallback")
     vocab = Vocab(["found", "validid", "sameid", "live"])
 
+    # locals by what they hold, not by their names: the captured generation (`= *idHolder`), the clock reading (`= system_clock::now()`)
+    holder = [p_["n"] for p_ in f.params if "TimerId" in p_["t"] or "shared_ptr" in p_["t"]]
+    captured, clock = set(), set()
+    for e in f.stmts():
+        if e.node.get("k") == "decl":
+            for dv in e.node["vars"]:
+                i = dv.get("init")
+                if i is None:
+                    continue
+                if any(x.get("k") == "var" and x.get("n") in holder for x in walk(i)):
+                    captured.add(dv["d"])
+                if any(x.get("k") == "call" and x.get("callee") == "std::chrono::system_clock::now" for x in walk(i)) and strip_casts(strip_wrappers(i)).get("k") == "call":
+                    clock.add(dv["d"])
+
+    def is_captured(x):
+        x = strip_casts(x)
+        return x.get("k") == "var" and x.get("d") in captured
+
+    def is_now(x):
+        x = strip_casts(strip_wrappers(x))
+        return (x.get("k") == "var" and x.get("d") in clock) or (x.get("k") == "call" and x.get("callee") == "std::chrono::system_clock::now")
+
     def leaf(n):
         cp = common.cmp_parts(n)
         if cp:
@@ -380,16 +402,31 @@ def r5(ctx, r):
             lt, rt = show(strip_casts(l)), show(strip_casts(rr))
             if "_expiry.end()" in rt and op in ("==", "!="):
                 return Not(A("found")) if op == "==" else A("found")
-            if lt == "capturedId" and "InvalidTimerId" in rt and op in ("==", "!="):
+            if is_captured(l) and "InvalidTimerId" in rt and op in ("==", "!="):
                 return Not(A("validid")) if op == "==" else A("validid")
-            if lt.endswith("timerId") and rt == "capturedId" and op in ("==", "!="):
+            if lt.endswith("timerId") and is_captured(rr) and op in ("==", "!="):
                 return A("sameid") if op == "==" else Not(A("sameid"))
-            if rt.endswith("timerId") and lt == "capturedId" and op in ("==", "!="):
-                return A("sameid") if op == "==" else Not(A("sameid"))
-            if lt.endswith("expiry") and rt == "now":
-                return {">": A("live"), "<=": Not(A("live"))}.get(op)
+            if lt.endswith("expiry") and is_now(rr):
+                return {">": A("live"), "<=": Not(A("live")), ">=": None, "<": None}.get(op)
         return None
-    pa = PredAbs(f, vocab, leaf, lambda e: None, track_bools=True)
+
+    store_locks = set()
+    store_lock_names = {v["n"] for e in f.stmts() if e.node.get("k") == "decl" for v in e.node["vars"]
+                        if v["t"].startswith(("std::unique_lock", "std::shared_lock", "std::lock_guard")) and any(x.get("k") == "member" and x["n"] == M for x in walk(v.get("init") or {}))}
+
+    def eff(e):
+        # what was learnt under one hold of the store mutex is stale under the next: a set-with-TTL / expireAt can land in between
+        if e.kind == "stmt" and e.node.get("k") == "decl":
+            for v in e.node["vars"]:
+                if v["t"].startswith(("std::unique_lock", "std::shared_lock", "std::lock_guard")) and any(x.get("k") == "member" and x["n"] == M for x in walk(v.get("init") or {})):
+                    store_locks.add(v["d"])
+                    return [("havoc_all", ["found", "validid", "sameid", "live"])]
+        if e.kind == "dtor" and e.raw.get("t", "").startswith(("std::unique_lock", "std::shared_lock", "std::lock_guard")) and (e.raw.get("d") in store_locks or e.raw.get("n") in store_lock_names):
+            return [("havoc_all", ["found", "validid", "sameid", "live"])]
+        if e.kind == "stmt" and e.node.get("k") == "mcall" and e.node.get("callee", "").startswith(("std::unique_lock::unlock", "std::shared_lock::unlock", "std::unique_lock::lock")):
+            return [("havoc_all", ["found", "validid", "sameid", "live"])]
+        return None
+    pa = PredAbs(f, vocab, leaf, eff, track_bools=True)
     ers = common.member_calls_on(f, KV + "::_kv", ("erase",)) + common.member_calls_on(f, KV + "::_expiry", ("erase",)) + common.member_calls_on(f, KV + "::_cache", ("erase",))
     if len(ers) < 3:
         r.fail(f, None, "eviction incomplete", "evictionCallback does not erase the key from values, expiry map and cache")
@@ -403,8 +440,8 @@ def r5(ctx, r):
     # captured id is read under the lock
     r.instance()
     la = ctx.locks()
-    rd = [e for e in f.stmts() if e.node.get("k") == "decl" and any(v["n"] == "capturedId" for v in e.node["vars"])]
-    r.expect(rd and la.holds(f, rd[0], M), f, rd[0] if rd else None, "captured id read unlocked", "the captured timer id is read before _mutex is taken (races its publication in armTimerLocked)",
+    rd = [e for e in f.stmts() if e.node.get("k") == "decl" and any(v["d"] in captured for v in e.node["vars"])]
+    r.expect(rd and all(la.holds(f, x, M) for x in rd), f, rd[0] if rd else None, "captured id read unlocked", "the captured timer id is read before _mutex is taken (races its publication in armTimerLocked)",
              okdesc="capturedId read under _mutex")
     # never reschedule
     r.instance()
@@ -556,6 +593,50 @@ def r8(ctx, r):
 
 
 
+CSTR = {"strcmp", "strncmp", "strlen", "strcpy", "strncpy", "strcat", "strncat", "strstr", "strchr", "strrchr", "strcasecmp", "strncasecmp", "strdup", "strtok", "strspn", "strcspn", "strcoll", "sprintf", "sscanf"}
+
+
+def r9(ctx, r):
+    """'binary keys and values … returned byte-for-byte': keys, prefixes and values are arbitrary byte strings with embedded
+    NULs.  Nothing in the store may look at them through a C-string function (it stops at the first 0x00), and the prefix test is
+    a length-aware comparison of exactly prefix.size() bytes."""
+    fb = ctx.fb()
+    nfun = 0
+    for f in fb.in_file(KVF):
+        if not f.ok:
+            continue
+        nfun += 1
+        for e in f.stmts():
+            n = e.node
+            if n.get("k") == "call" and last(n.get("callee", "")) in CSTR:
+                r.instance()
+                r.fail(f, e, "C-string function on store data", "%s calls %s(): keys, prefixes and values are binary — a C-string function stops at the first NUL byte, so keys that differ only after an embedded 0x00 "
+                       "compare equal (a prefix scan returns, and a prefix remove deletes, keys outside the prefix) or values are cut" % (short(f.name), last(n["callee"])))
+    if nfun < 20:
+        raise AnalysisBroken("kvstore.hpp: only %d function bodies" % nfun)
+    kp = kvf(ctx, "keysWithPrefix")
+    tests = [b for b in kp.blocks.values() if b.cond is not None and any(x.get("k") == "mcall" and last(x.get("callee", "")) == "compare" for x in walk(b.cond))]
+    r.instance()
+    ok = False
+    for b in tests:
+        for x in walk(b.cond):
+            if x.get("k") == "mcall" and last(x.get("callee", "")) == "compare" and len(x.get("args", [])) >= 3:
+                a = x["args"]
+                ok = const_value(a[0]) == 0 and "prefix.size()" in show(a[1]) and strip_casts(strip_wrappers(a[2])).get("n") == "prefix"
+    pushes = [e for e in kp.stmts() if e.node.get("k") == "mcall" and last(e.node.get("callee", "")) in ("push_back", "emplace_back")]
+    if not pushes:
+        raise AnalysisBroken("keysWithPrefix: result collection not found")
+    if not tests:
+        # another spelling of the prefix test: refuse unless it is one of the other size-aware forms
+        alt = any(x.get("k") in ("call", "mcall") and last(x.get("callee", "")) in ("starts_with", "equal", "memcmp", "mismatch") for b in kp.blocks.values() if b.cond is not None for x in walk(b.cond))
+        if not alt:
+            r.fail(kp, pushes[0], "prefix test", "keysWithPrefix no longer compares the first prefix.size() bytes of the key with the prefix in a length-aware way")
+        else:
+            raise AnalysisBroken("keysWithPrefix: prefix test in a form this rule does not evaluate")
+    else:
+        r.expect(ok, kp, pushes[0], "prefix test", "keysWithPrefix does not test `key.compare(0, prefix.size(), prefix) == 0`", okdesc="prefix test compares exactly prefix.size() bytes")
+
+
 def run(ctx, ck):
     ck.run_rule("C12-R1", "lock table of the store; cache maintained only under the store mutex", "A1 guarded-by + lock order", lambda r: r1(ctx, r))
     ck.run_rule("C12-R2", "every read path applies the expiry backstop", "A5 predicate abstraction, closed set of read APIs", lambda r: r2(ctx, r))
@@ -564,4 +645,5 @@ def run(ctx, ck):
     ck.run_rule("C12-R5", "eviction is generation-guarded", "A5", lambda r: r5(ctx, r))
     ck.run_rule("C12-R7", "journal record layout: writer and replay decide every optional field by the op code, identically", "A10 writer/reader table agreement", lambda r: r7(ctx, r))
     ck.run_rule("C12-R8", "a key leaves the value map and the expiry map together", "A2 pairing", lambda r: r8(ctx, r))
+    ck.run_rule("C12-R9", "keys, prefixes and values are binary: no C-string function touches them; the prefix test is length-aware", "A10 closed set of forbidden callees + shape of the prefix test", lambda r: r9(ctx, r))
     ck.run_rule("C12-R6", "keys dropped at compaction never resurrect", "A2", lambda r: r6(ctx, r))
